@@ -137,6 +137,32 @@ func headerEnd(family string, d []byte) int {
 	return len(d)
 }
 
+// headerSegments lists the marker segments with a length field inside the header of a JPEG-
+// or JPEG 2000-family stream: (offset of the 0xFF, total length including the marker).
+func headerSegments(family string, d []byte, hdrEnd int) [][2]int {
+	if family != "jpeg" && family != "j2k" {
+		return nil
+	}
+	var out [][2]int
+	for i := 2; i+4 <= hdrEnd && i+4 <= len(d); {
+		if d[i] != 0xFF {
+			break
+		}
+		m := d[i+1]
+		if m == 0xD8 || m == 0x4F || m == 0x93 || m == 0xD9 || m == 0x01 || (m >= 0xD0 && m <= 0xD7) || m == 0xFF {
+			i += 2
+			continue
+		}
+		l := int(binary.BigEndian.Uint16(d[i+2:]))
+		if l < 2 || i+2+l > len(d) {
+			break
+		}
+		out = append(out, [2]int{i, 2 + l})
+		i += 2 + l
+	}
+	return out
+}
+
 func buildCorpus(env *Env, cfg *spec.DiskCfg) []corpusItem {
 	var out []corpusItem
 	curGeo := 0
@@ -851,6 +877,50 @@ func diskMain(inPath, outPath string) {
 								}
 								return out, []string{fmt.Sprintf("sector(%d,%d,%#x)", o, l, fill)}
 							})
+						}
+					}
+				}
+			}
+			// a stale copy of a header block: every marker segment once more right behind itself, with one
+			// byte of the copy changed (the older version of a block that was rewritten in place and
+			// is still chained in). A decoder that lets a repeated segment replace the first sees
+			// dimensions, counts and table selectors the stream's own first header never declared.
+			if ei == 0 {
+				for _, sg := range headerSegments(it.family, d, it.hdrEnd) {
+					so, sl := sg[0], sg[1]
+					if sl > 64 {
+						continue // tables: their repetition is legal and the poke sweep covers their bytes
+					}
+					for j := 4; j < sl; j++ {
+						for _, v := range []int{0x00, 0x01, 0x4E, 0x7F, 0xFF} {
+							if byte(v) == d[so+j] {
+								continue
+							}
+							so, sl, j, v := so, sl, j, v
+							s.one(entry, it, it.info, true, func() ([]byte, []string) {
+								out := append([]byte(nil), d[:so+sl]...)
+								out = append(out, d[so:so+sl]...)
+								out[so+sl+j] = byte(v)
+								out = append(out, d[so+sl:]...)
+								return out, []string{fmt.Sprintf("stale-copy(%d,%d,+%d,%#x)", so, sl, j, v)}
+							})
+						}
+						// the older block described another image: two adjacent 16- or 32-bit fields
+						// (height and width) differ in their high-order bytes
+						for _, gap := range []int{2, 4} {
+							if j+gap >= sl {
+								continue
+							}
+							for _, v := range []int{0x4E, 0xFF} {
+								so, sl, j, v, gap := so, sl, j, v, gap
+								s.one(entry, it, it.info, true, func() ([]byte, []string) {
+									out := append([]byte(nil), d[:so+sl]...)
+									out = append(out, d[so:so+sl]...)
+									out[so+sl+j], out[so+sl+j+gap] = byte(v), byte(v)
+									out = append(out, d[so+sl:]...)
+									return out, []string{fmt.Sprintf("stale-copy2(%d,%d,+%d/+%d,%#x)", so, sl, j, j+gap, v)}
+								})
+							}
 						}
 					}
 				}
